@@ -93,17 +93,28 @@ def table_cases(rep, tier, seed):
         raise core.MachineryError("could not produce result file: %s" % r)
     with zipfile.ZipFile(os.path.join(d, "r3.zip")) as z:
         stats["r3.zip"] = json.loads(z.read("stats.json"))
+    # a result computed from KITTI files (no timestamps: other companion arrays) next to results from TUM files
+    for nm, off in (("kref.txt", 0.0), ("kest.txt", 0.375)):
+        with open(os.path.join(d, nm), "w") as f:
+            for i in range(8):
+                f.write(" ".join(repr(float(v)) for v in [1, 0, 0, i, 0, 1, 0, off * i, 0, 0, 1, 0]) + "\n")
+    r = cli.run_cli("ape", ["kitti", "kref.txt", "kest.txt", "--save_results", "r4.zip"], d)
+    if r["code"] != 0 or r["exc"] != "none":
+        raise core.MachineryError("could not produce result file: %s" % r)
+    with zipfile.ZipFile(os.path.join(d, "r4.zip")) as z:
+        stats["r4.zip"] = json.loads(z.read("stats.json"))
     # the same file name in two directories: with --use_filenames the labels are the paths as given, and they differ
     shutil.copy(os.path.join(d, "r3.zip"), os.path.join(d, "runb", "r0.zip"))
     stats["runb/r0.zip"] = stats["r3.zip"]
-    combos = [(["r0.zip", "runb/r0.zip"], True, False), (["runb/r0.zip", "r1.zip", "r0.zip"], True, False),
+    combos = [(["r0.zip", "r4.zip"], False, False), (["r4.zip", "r1.zip", "r2.zip"], True, False),
+              (["r0.zip", "runb/r0.zip"], True, False), (["runb/r0.zip", "r1.zip", "r0.zip"], True, False),
               (["r0.zip", "r3.zip"], False, False), (["r0.zip", "r1.zip"], False, False), (["r1.zip", "r0.zip"], True, False), (["r0.zip", "r1.zip"], False, True),
               (["r1.zip", "r0.zip"], False, True), (["r0.zip"], False, False), (["r0.zip", "r1.zip", "r1.zip"], True, True),
               (["r2.zip", "r0.zip"], True, False)]
     # ... and finally a result file that was rewritten since an earlier run of this process read it: the table shows the new content
     combos += [("rewrite", None, None), (["r0.zip", "r2.zip"], True, False), (["r0.zip", "r1.zip"], True, True)]
     import pandas as pd
-    est_label = {"r0.zip": "est0.txt", "r1.zip": "est1.txt", "r2.zip": "est2.txt", "r3.zip": "est0.txt", "runb/r0.zip": "est0.txt"}
+    est_label = {"r4.zip": "kest.txt", "r0.zip": "est0.txt", "r1.zip": "est1.txt", "r2.zip": "est2.txt", "r3.zip": "est0.txt", "runb/r0.zip": "est0.txt"}
     for n, (fs, usefn, merge) in enumerate(combos):
         if fs == "rewrite":
             shutil.copy(os.path.join(d, "r1.zip"), os.path.join(d, "r0.zip"))
